@@ -104,9 +104,11 @@ TStable == /\ Tr.kind = "rt"
 TReparse == /\ Tr.kind = "rt"
             /\ l = 5
             /\ Len(Tr.re) >= 2
-            /\ LET p == Parse(Toks(Tr.t))
+            \* (step 2 found Parse(Toks(Tr.t)) = [rel |-> Tr.p, warn |-> Tr.warn], no exception: the
+            \*  memo-free parse of the string is not evaluated again -- fields of a thousand relations)
+            /\ LET p == [rel |-> Tr.p, warn |-> Tr.warn]
                IN \A i \in 1..Len(Tr.re) :
-                     /\ ~p.exc /\ p.warn = Tr.re[i].warn /\ p.rel = Tr.re[i].p
+                     /\ p.warn = Tr.re[i].warn /\ p.rel = Tr.re[i].p
                      /\ ~Tr.re[i].warn
                      /\ Tr.re[i].p = Tr.r
                      /\ Tr.re[i].same
@@ -120,7 +122,7 @@ TShare == /\ Tr.kind = "rt"
           /\ Tr.ps = Tr.rs
           /\ Tr.sames
           /\ Tr.fmtsame
-          /\ Parse(Toks(Tr.t)).rel = Tr.pm
+          /\ Tr.p = Tr.pm                       \* Tr.p = Parse(Toks(Tr.t)).rel (step 2)
           /\ Tr.pm = Tr.r
           /\ Tr.mixok
           /\ Advance
